@@ -82,7 +82,7 @@ func (w *world) checkViews(rc *core.RunCtx, m *actModel, kinds []string, after s
 		// nothing that is not active may resolve
 		for _, k := range kinds {
 			for x := 0; x < 3; x++ {
-				id := fmt.Sprintf("%s/x%d", k, x)
+				id := k + "/" + []string{"x0", "x1", "r/1"}[x]
 				if _, ok := m.active[id]; !ok {
 					if got := nd.c.GetActiveByID(id); got != nil {
 						rc.Violate("stale-entry/"+after, "after %s: node %s still resolves %s to %s", after, nd.id, id, pidS(got))
@@ -138,7 +138,7 @@ func runActivation(rc *core.RunCtx) {
 		switch g.Pick(6, 2, 2, 2, 2) {
 		case 0: // activate
 			k := allKinds[g.IntN(len(allKinds))]
-			x := fmt.Sprintf("x%d", g.IntN(3))
+			x := []string{"x0", "x1", "r/1"}[g.IntN(3)] // ids may contain the separator
 			id := k + "/" + x
 			r := g.IntN(3)
 			var capable []*node
@@ -209,7 +209,7 @@ func runActivation(rc *core.RunCtx) {
 			delete(m.active, id)
 			for _, nd := range live {
 				if nd.addr == host {
-					if nd.c.Engine().Registry.GetPID(strings.Split(id, "/")[0], strings.Split(id, "/")[1]) != nil {
+					if nd.c.Engine().Registry.GetPID(strings.SplitN(id, "/", 2)[0], strings.SplitN(id, "/", 2)[1]) != nil {
 						rc.Violate("deactivated-actor-still-running", "%s was deactivated but is still registered on %s", id, nd.id)
 					}
 					if nd.spawns["stopped:"+id] == 0 {
@@ -220,7 +220,7 @@ func runActivation(rc *core.RunCtx) {
 			w.checkViews(rc, m, allKinds, "deactivate")
 		case 2: // cluster-aware spawn of an id not yet known
 			k := allKinds[g.IntN(len(allKinds))]
-			x := fmt.Sprintf("x%d", g.IntN(3))
+			x := []string{"x0", "x1", "r/1"}[g.IntN(3)] // ids may contain the separator
 			id := k + "/" + x
 			if _, ok := m.active[id]; ok {
 				continue
